@@ -17,15 +17,17 @@ Prop  == Aux.prop
 
 
 
-IsBio(cfg)     == cfg \in {"BioConsert", "BioCo", "Bio[Borda]", "Bio[Copeland,KwikSort]", "Bio[PickAPerm]",
+IsBio(cfg)     == cfg \in {"BioConsert", "Bio[]", "Bio()", "BioCo", "Bio[Borda]", "Bio[Copeland,KwikSort]", "Bio[PickAPerm]",
                            "Bio[PickAPerm,Copeland]", "Bio[Borda,Copeland,KwikSort]", "Bio[Borda,BordaBid]"}
-HasStarters(cfg) == IsBio(cfg) /\ cfg # "BioConsert"
+\* an explicitly empty list (or tuple) of starting algorithms is the default configuration
+HasStarters(cfg) == IsBio(cfg) /\ cfg \notin {"BioConsert", "Bio[]", "Bio()"}
 IsExact(cfg)   == cfg \in {"ExactPulp", "Exact(opt)", "Exact(noopt)", "ExactCplex(opt)", "ExactCplex(noopt)",
                            "ExactOptim1"}
 IsSelector(cfg) == cfg \in {"Exact(opt)", "Exact(noopt)"}
 IsParCons(cfg) == cfg \in {"ParCons", "ParCons(b0,BioConsert)", "ParCons(b1,KwikSort)", "ParCons(b2,Borda)",
                            "ParCons(b3,BioConsert)",
-                           "ParCons(b0,BioCo)", "ParCons(b0,ParCons(b0,Borda))", "ParCons(b80,rec)"}
+                           "ParCons(b0,BioCo)", "ParCons(b0,ParCons(b0,Borda))", "ParCons(b80,rec)",
+                           "ParCons(b0,Bio[])"}
 \* configurations that the property C14 says refuse incomplete data exactly when not relevant
 Refusing(cfg)  == cfg \in {"Borda", "BordaBid", "PickAPerm", "BioCo", "Bio[Borda]", "Bio[PickAPerm]", "Bio[Borda,BordaBid]",
                            "Bio[PickAPerm,Copeland]", "Bio[Borda,Copeland,KwikSort]"}
